@@ -21,6 +21,8 @@ pub type PApp = App<InstrBank>;
 pub const NATIVE_DENOM: &str = "uwasm";
 /// the last trader's name is "0" + the first trader's: together with an address "<vamm>0" it collides with the
 /// first trader's position key if keys are built by plain concatenation (adversarial naming, used by alias ops)
+/// two 44-byte addresses sharing their first 43 bytes
+pub const LONG_NAMES: [&str; 2] = ["margined1qvw5e8k3tz0hd7xkw2l9c4nmy6sfjup3ra0", "margined1qvw5e8k3tz0hd7xkw2l9c4nmy6sfjup3ra1"];
 pub const TRADERS: [&str; 6] = ["alice", "bob", "carol", "whale", "dave", "0alice"];
 pub const N_TRADERS: usize = 6;
 pub const ALIAS_ATTACKER: usize = 0;
@@ -79,6 +81,12 @@ pub struct WorldCfg {
     /// also deploy an opened vAMM that was instantiated without margin engine / insurance fund
     #[serde(default)]
     pub orphan: bool,
+    /// give the poor trader an unlimited cw20 allowance too (only its wallet is small)
+    #[serde(default)]
+    pub poor_unlimited_allowance: bool,
+    /// traders 1 and 2 get long addresses that differ only in their last byte (chain addresses are 40-60 bytes with a shared prefix)
+    #[serde(default)]
+    pub long_names: bool,
 }
 
 impl WorldCfg {
@@ -115,6 +123,8 @@ impl WorldCfg {
             whitelist_whale: false,
             alien: false,
             orphan: false,
+            poor_unlimited_allowance: false,
+            long_names: false,
         }
     }
 }
@@ -257,7 +267,11 @@ impl World {
         let pauser = "pauser".to_string();
         let stranger = "stranger".to_string();
         let liquidator = "liquidator".to_string();
-        let traders: Vec<String> = TRADERS.iter().map(|s| s.to_string()).collect();
+        let mut traders: Vec<String> = TRADERS.iter().map(|s| s.to_string()).collect();
+        if cfg.long_names {
+            traders[1] = LONG_NAMES[0].to_string();
+            traders[2] = LONG_NAMES[1].to_string();
+        }
         let d = cfg.d();
         let users: Vec<String> = traders
             .iter()
@@ -583,7 +597,7 @@ impl World {
         // allowances
         if let Some(t) = &token {
             for (i, tr) in traders.iter().enumerate() {
-                let amount = if i == POOR { cfg.poor_balance * 2 } else { u128::MAX / 4 };
+                let amount = if i == POOR && !cfg.poor_unlimited_allowance { cfg.poor_balance * 2 } else { u128::MAX / 4 };
                 app.execute_contract(
                     Addr::unchecked(tr),
                     t.clone(),
